@@ -30,6 +30,8 @@ def cz(v, model, universe=None):
         return r.as_string() if z3.is_string_value(r) else str(r)
     if isinstance(v, VNone):
         return None
+    if isinstance(v, VNaN):
+        return {"$float": "nan"}
     if isinstance(v, VUn):
         return {"$un": str(_ev(model, v.e))}
     if isinstance(v, VOpt):
